@@ -124,4 +124,58 @@ theorem enterM_other {t u : Nat} (hne : u ≠ t) (maxWait : Nat) :
     apply ih
     simp [punlock, h, hne]
 
+/-! ### The source text this file transcribes
+
+`transcribedMacros` is the token-level text of the macros of src/internal/qinternal.h that the
+definitions above were transcribed from (white space and comments removed, `DEBUG(...)` collapsed):
+
+* `Q_MUTEX_LEAVE`  ↦ `leave`:  `if (m == NULL) break;` ↦ the `none` case; the owner-mismatch `if` only
+  logs; `if ((count--) < 0) count = 0;` ↦ `count := if count < 0 then 0 else count - 1`;
+  `pthread_mutex_unlock` ↦ `punlock` (unconditional);
+* `Q_MUTEX_ENTER`  ↦ `enter`/`enterM`/`spin`: `while (true) { for (i = 0; (_ret = trylock) != 0 && i <
+  MAX_MUTEX_LOCK_WAIT; i++) usleep(1); if (_ret == 0) break; Q_MUTEX_LEAVE(m); }` ↦ `enterM` (outer
+  loop, unbounded: `fuel` only bounds the model's evaluation) around `spin` (inner loop, `maxWait`);
+  `count++; owner = pthread_self();` ↦ the `some { m' with count := m'.count + 1, qowner := t }` result;
+* `Q_MUTEX_NEW`, `Q_MUTEX_DESTROY`, `MAX_MUTEX_LOCK_WAIT` are recorded so that a change to them is
+  noticed as well (DESTROY repeats LEAVE until `pthread_mutex_destroy` succeeds).
+
+The translator translator/mutexmacros.py regenerates the same token lists from the CURRENT source as
+`Generated.mutexMacros`; Props/C13 and Props/C14 carry the obligation
+`macro_skeleton_as_modelled : Generated.mutexMacros = transcribedMacros`.  When the macros change, that
+proof breaks; update the model above first, then this text. -/
+def transcribedMacros : List (String × List String) := [
+  ("MAX_MUTEX_LOCK_WAIT", [
+    "(", "5000", ")"]),
+  ("Q_MUTEX_NEW(m,r)", [
+    "do", "{", "qmutex_t", "*", "x", "=", "(", "qmutex_t", "*", ")", "calloc", "(", "1", ",", "sizeof", "(",
+    "qmutex_t", ")", ")", ";", "if", "(", "x", "==", "NULL", ")", "{", "m", "=", "NULL", ";", "break", ";",
+    "}", "pthread_mutexattr_t", "_mutexattr", ";", "pthread_mutexattr_init", "(", "&", "_mutexattr", ")",
+    ";", "if", "(", "r", "==", "true", ")", "{", "pthread_mutexattr_settype", "(", "&", "_mutexattr", ",",
+    "PTHREAD_MUTEX_RECURSIVE", ")", ";", "}", "int", "_ret", "=", "pthread_mutex_init", "(", "&", "(", "x",
+    "->", "mutex", ")", ",", "&", "_mutexattr", ")", ";", "pthread_mutexattr_destroy", "(", "&",
+    "_mutexattr", ")", ";", "if", "(", "_ret", "==", "0", ")", "{", "m", "=", "x", ";", "}", "else", "{",
+    "DEBUG(..)", ";", "free", "(", "x", ")", ";", "m", "=", "NULL", ";", "}", "}", "while", "(", "0", ")"]),
+  ("Q_MUTEX_LEAVE(m)", [
+    "do", "{", "if", "(", "m", "==", "NULL", ")", "break", ";", "if", "(", "!", "pthread_equal", "(", "(",
+    "(", "qmutex_t", "*", ")", "m", ")", "->", "owner", ",", "pthread_self", "(", ")", ")", ")", "{",
+    "DEBUG(..)", ";", "}", "if", "(", "(", "(", "(", "qmutex_t", "*", ")", "m", ")", "->", "count", "--",
+    ")", "<", "0", ")", "(", "(", "qmutex_t", "*", ")", "m", ")", "->", "count", "=", "0", ";",
+    "pthread_mutex_unlock", "(", "&", "(", "(", "(", "qmutex_t", "*", ")", "m", ")", "->", "mutex", ")", ")",
+    ";", "}", "while", "(", "0", ")"]),
+  ("Q_MUTEX_ENTER(m)", [
+    "do", "{", "if", "(", "m", "==", "NULL", ")", "break", ";", "while", "(", "true", ")", "{", "int",
+    "_ret", ",", "i", ";", "for", "(", "i", "=", "0", ";", "(", "_ret", "=", "pthread_mutex_trylock", "(",
+    "&", "(", "(", "(", "qmutex_t", "*", ")", "m", ")", "->", "mutex", ")", ")", ")", "!=", "0", "&&", "i",
+    "<", "MAX_MUTEX_LOCK_WAIT", ";", "i", "++", ")", "{", "if", "(", "i", "==", "0", ")", "{", "DEBUG(..)",
+    ";", "}", "usleep", "(", "1", ")", ";", "}", "if", "(", "_ret", "==", "0", ")", "break", ";",
+    "DEBUG(..)", ";", "Q_MUTEX_LEAVE", "(", "m", ")", ";", "}", "(", "(", "qmutex_t", "*", ")", "m", ")",
+    "->", "count", "++", ";", "(", "(", "qmutex_t", "*", ")", "m", ")", "->", "owner", "=", "pthread_self",
+    "(", ")", ";", "}", "while", "(", "0", ")"]),
+  ("Q_MUTEX_DESTROY(m)", [
+    "do", "{", "if", "(", "m", "==", "NULL", ")", "break", ";", "if", "(", "(", "(", "qmutex_t", "*", ")",
+    "m", ")", "->", "count", "!=", "0", ")", "DEBUG(..)", ";", "int", "_ret", ";", "while", "(", "(", "_ret",
+    "=", "pthread_mutex_destroy", "(", "&", "(", "(", "(", "qmutex_t", "*", ")", "m", ")", "->", "mutex",
+    ")", ")", ")", "!=", "0", ")", "{", "DEBUG(..)", ";", "Q_MUTEX_LEAVE", "(", "m", ")", ";", "}", "free",
+    "(", "m", ")", ";", "}", "while", "(", "0", ")"])]
+
 end Qlibc.Conc
